@@ -202,17 +202,18 @@ def run(rep: C.Report):
     C.proof_verdict(rep, found)
 
 
-LOCKS_MAX_EVENTS = 700
+LOCKS_MAX_EVENTS = {"quick": 2000, "thorough": 100000}
 
 
 def locks_tie(rep, lrows, found):
     """every in-process run's lock / semaphore schedule replayed on PathLocks.v"""
     header = R.LockTrace.HEADER + R.LockTrace.DEFS
-    # the model's state is a function updated step by step: evaluation is quadratic in the schedule length, so
-    # very long schedules (hundreds of files) are left to the semaphore tie of C14
-    big = [1 for _, term, meta in lrows if term is not None and meta["events"] > LOCKS_MAX_EVENTS]
+    # evaluation of a schedule of e events over t tasks costs about e * t^2 list steps inside Coq: in the quick
+    # tier the longest schedules (hundreds of files) are left to the semaphore tie of C14
+    cap = LOCKS_MAX_EVENTS.get(rep.tier, 2000)
+    big = [1 for _, term, meta in lrows if term is not None and meta["events"] > cap]
     rep.count("locks_tie.skipped_long_schedules", len(big))
-    good = [(jc, term, meta) for jc, term, meta in lrows if term is not None and meta["events"] <= LOCKS_MAX_EVENTS]
+    good = [(jc, term, meta) for jc, term, meta in lrows if term is not None and meta["events"] <= cap]
     hit = False
     for jc, term, meta in lrows:
         if term is None and not found and not hit:
@@ -226,7 +227,7 @@ def locks_tie(rep, lrows, found):
         rep.count("locks_tie.events", m["events"])
         rep.count("locks_tie.paths_shared_between_files", m["shared_locks"])
     mism, errors = C.run_mismatch_shards(rep.prop, "locks", header, "m_locks", "eq3",
-                                         [(t, "(true, true, true)") for _, t, _ in good], shard=10)
+                                         [(t, "(true, true, true)") for _, t, _ in good], shard=4)
     rep.ties["locks"] = {"cases": len(good), "mismatches": len(mism), "errors": len(errors)}
     if errors:
         rep.violation(f"correspondence locks: model evaluation failed: {errors[0][:300]}",
